@@ -154,6 +154,8 @@ def simulate(
         )
         if sparse_argmax is not None:
             cont_choice_argmax = cont_choice_argmax[sparse_argmax]
+            if dense_argmax is not None:
+                dense_argmax = dense_argmax[sparse_argmax]
 
         # Convert optimal choice indices to actual choice values
         # ==============================================================================
